@@ -7,7 +7,7 @@ NOT part of property C18.  Core Lean only.
 Code-faithful: the two padding loops of `epochs` use Python slices `x[s-pad:s]`, `x[e:e+pad]` whose
 bounds may be negative (then they count from the END of the array) — `adjust` transcribes CPython's
 `PySlice_AdjustIndices`; `np.searchsorted(col, t)` (side = 'left') on a sorted column is the number of
-entries `< t`; `bisectLeft` is the binary search NumPy actually runs.
+entries `< t`; `bisectLeft` is a binary search, equal to that count on sorted columns.
 -/
 namespace Psi.EpochsExt
 open Psi.Epochs
@@ -52,8 +52,10 @@ def dilate (x : List Bool) (pad : Nat) : List Bool :=
 the number of entries `< t`. -/
 def countLt (col : List Int) (t : Int) : Nat := col.countP (fun v => decide (v < t))
 
-/-- the binary search NumPy runs (`npy_binsearch`, side left): `lo = 0, hi = n;
-while lo < hi: mid = lo + (hi - lo) / 2; if col[mid] < t then lo = mid + 1 else hi = mid`. -/
+/-- the textbook binary search (side left): `lo = 0, hi = n;
+while lo < hi: mid = lo + (hi - lo) / 2; if col[mid] < t then lo = mid + 1 else hi = mid`.
+On a sorted column it returns `countLt` (`bisectLeft_eq_countLt`); on unsorted columns NumPy's own search
+returns other indices (observed with NumPy 2.5) — outside the precondition of `np.searchsorted`, not modelled. -/
 def bisectGo (col : Array Int) (t : Int) : Nat → Nat → Nat → Nat
   | 0, lo, _ => lo
   | fuel + 1, lo, hi =>
